@@ -1,6 +1,7 @@
 package engine
 
 import (
+	"os"
 	"path/filepath"
 	"sort"
 	"strings"
@@ -27,6 +28,8 @@ type GenCfg struct {
 	Symlinks   bool // create symlinks ld0 -> d0, lf -> d0/<name>
 	MaxAdds    int
 	PPause     int // percent of burst operations followed by a consumer pause of 120-300 ms (delayed consumer)
+	PRecv      int // percent of operations in plugged bursts followed by a blocking receive of 1-3 events (the reader advances that far and parks again)
+	PLongPause int // percent of bursts in which the consumer stays away for 1.1 s (quick) / 1.1-2.5 s (thorough) after one operation
 	POps       int // percent of Adds that request a subset of the operations
 	PMacro     int // percent of operations replaced by a multi-step lifecycle macro on a watched file (re-point, alias swap, ...)
 	PRemoveNow int // percent of plugged bursts that contain a Remove of a watched dir followed by ops under fresh names
@@ -319,6 +322,10 @@ func (g *Gen) Case() *Case {
 			if plug && len(g.added) > 0 && g.pct("removenow", g.cfg.PRemoveNow) {
 				rmAt = rapid.IntRange(0, k-1).Draw(t, "rmat")
 			}
+			longAt := -1
+			if g.pct("longpause", g.cfg.PLongPause) {
+				longAt = rapid.IntRange(0, k-1).Draw(t, "longat")
+			}
 			for i := 0; i < k; i++ {
 				if i == rmAt {
 					j := rapid.IntRange(0, len(g.added)-1).Draw(t, "rmnowidx")
@@ -338,6 +345,16 @@ func (g *Gen) Case() *Case {
 				g.fsStep()
 				if g.pct("pause", g.cfg.PPause) {
 					g.steps = append(g.steps, Step{K: KPause, N: rapid.SampledFrom([]int{120, 180, 300}).Draw(t, "pausems")})
+				}
+				if plug && g.pct("recv", g.cfg.PRecv) {
+					g.steps = append(g.steps, Step{K: KRecv, N: rapid.IntRange(1, 3).Draw(t, "recvn")})
+				}
+				if i == longAt {
+					ms := 1100
+					if os.Getenv("VERIF_TIER") == "thorough" {
+						ms = rapid.SampledFrom([]int{1100, 1600, 2500}).Draw(t, "longms")
+					}
+					g.steps = append(g.steps, Step{K: KPause, N: ms})
 				}
 				if !plug && g.pct("poll", 15) {
 					g.steps = append(g.steps, Step{K: KPoll, N: rapid.IntRange(1, 5).Draw(t, "polln")})
